@@ -1406,7 +1406,7 @@ func gen(seed uint64, n int, w io.Writer) {
 			if strings.HasPrefix(t, "mark/") {
 				fmt.Fprintf(w, "updq %s id:%d\n", t, streamID())
 			} else {
-				def, gt := g.genDef(t, false)
+				def, gt := g.genDef(t, r.Chance(1, 6))
 				fmt.Fprintf(w, "updq %s %s\n", t, def)
 				g.tags[t] = gt
 			}
